@@ -11,10 +11,27 @@ def build(rng, n_streams, res):
     for k_ in range(n_streams):
         segs, s, kinds = G.rand_segments(rng, rng.choice([1, 2, 3, 6, 10]) if k_ % 10 else rng.choice([33, 40, 70, 130]))
         filt = G.rand_filter(rng, segs)
-        q_exp, n_exp = G.expected_c02(segs, filt)
-        for cname, parts in G.chunkings(rng, s):
-            ops = [('P', p) for p in parts] + [('K',)] * (len(q_exp) + 1)
-            impl = G.impl_ubx(filt, ops)
+        q_a, n_a = G.expected_c02(segs, filt)
+        filt_a = filt
+        for cname, parts in G.chunkings(rng, s) + [('switch', None)]:
+            filt, q_exp, n_exp = filt_a, q_a, n_a
+            if cname == 'switch':
+                # the filter is replaced while the stream is arriving (possibly in the middle of a frame): each frame is
+                # judged by the filter in force when its last byte is processed
+                cut = rng.randrange(len(s) + 1)
+                filt0 = G.rand_filter(rng, segs)
+                if filt is None:
+                    filt = []
+                q_exp, n_exp = G.expected_c02(segs, filt0, (cut, filt))
+                cut2 = rng.randrange(cut + 1)
+                ops = [('P', s[:cut2]), ('P', s[cut2:cut]), ('FS', filt), ('P', s[cut:])] + [('K',)] * (len(q_exp) + 1)
+                impl = G.impl_ubx(filt0, ops)
+                parts = [s[:cut2], s[cut2:cut], s[cut:]]
+                filt_cmd = filt0
+            else:
+                ops = [('P', p) for p in parts] + [('K',)] * (len(q_exp) + 1)
+                impl = G.impl_ubx(filt, ops)
+                filt_cmd = filt
             exp = f'rx={n_exp} q=[] out=[{" ".join(q_exp + ["none"])}]'
             desc = {'segments': [[x if not isinstance(x, (bytes, bytearray)) else C.hexs(x) for x in sg] for sg in segs],
                     'filter': filt, 'chunking': cname, 'chunks': [C.hexs(p) for p in parts] if len(parts) < 40 else cname,
@@ -23,7 +40,7 @@ def build(rng, n_streams, res):
                 res.violation('C02 oracle: delivered packets/counter differ from what the stream grammar prescribes',
                               {'property': 'C02', 'input': desc, 'expected': exp[:2000], 'implementation_says': impl[:2000]},
                               'c02|' + C.hexs(s)[:200] + '|' + cname)
-            cases.append(Case('ubx-parser-grammar', G.ubx_cmd(filt, ops), impl, desc,
+            cases.append(Case('ubx-parser-grammar', G.ubx_cmd(filt_cmd, ops), impl, desc,
                               nontrivial=bool(q_exp) or n_exp > 0, kind='+'.join(sorted(set(k.split('-')[0] for k in kinds))) + '/' + cname))
     return cases
 
@@ -32,7 +49,7 @@ def check(tier, seed):
     res = C.Result('C02', tier, seed)
     res.rule = ('streams drawn from the segment grammar (frames 0..1000 bytes incl. sync-dense payloads, checksum-corrupted '
                 'frames, over-length headers, sync-pair-free filler incl. NMEA and a lone B5 before a frame), each under 4 '
-                'chunkings (whole, 1-byte, 128-byte, random with empty chunks) and a random filter; compared with the model and '
+                'chunkings (whole, 1-byte, 128-byte, random with empty chunks) and a random filter, plus one run where the filter is replaced at a random stream offset (mid-frame included); compared with the model and '
                 'with an independent expected() oracle; non-trivial = at least one frame or marker expected')
     with C.WorkDir('C02') as wd:
         C.audit_sources()
